@@ -112,6 +112,12 @@ def family(ctx):
             d[o + 2048:o + 2048 + 7] = b'\xffCD001\x01'
             add(B.Image('iso', bytes(d), bounds=[32768, 32768 + 2048, 32768 + 4096, o, o + 2048]),
                 'run of %d type-%d descriptors' % (nsec, dtype))
+    # GPT: protective MBR + primary header whose entry count / entry size / entry LBA are hostile
+    for cnt, esz in ((128, 128), (128, 4096), (128, 16384), (1, 1 << 21), (4, 1 << 19),
+                     ((1 << 32) - 1, (1 << 32) - 1), (0, 0), (129, 128)):
+        for lba in (2, 3):
+            add(B.gpt_disk(entries=cnt, entry_size=esz, entry_lba=lba, length=2300000),
+                'gpt header entries=%d size=%d lba=%d' % (cnt, esz, lba))
     # valid images of every format
     for im in F.wellformed(seed, full):
         add(im, 'valid ' + im.name)
